@@ -6,6 +6,7 @@
 //    equal the number of live elements ([0,size) alive, nothing alive beyond), the untouched prefix must be
 //    intact, and destruction must balance (nothing destroyed that was never constructed, nothing left).
 #pragma once
+#include "c02_large.hpp"
 #include "c02_vector.hpp"
 #include "listlike.hpp"
 #include <cmath>
@@ -457,6 +458,136 @@ namespace c02
         mc::outcome(mc::fmt("%d/%d", count, where));
     }
 
+    // ------------------------------------------------------------------ unusual but legal element types
+    // E = trk::Amp (overloaded unary operator&) or trk::MoveOnly: n elements through emplace_back (every push
+    // reallocates), then one operation; contents against std::vector<int>, lifetime through the registry.
+    template <class Tr, class E, bool Copyable> void unusual_element_body(const string &variant)
+    {
+        using Vec = typename Tr::template vec<E>;
+        using CI = typename Vec::const_iterator;
+        const int NOPS = 15;
+        int c = mc::choose(5 * NOPS);
+        int n = c / NOPS, op = c % NOPS;
+        static const char *on[] = {"none", "emplace", "erase_one", "erase_range", "pop_back", "resize_longer", "resize_shorter", "reserve", "clear", "move_ctor", "move_assign",
+                                   "copy_ctor", "copy_assign", "push_back", "insert"};
+        mc::describe("%s: %d elements through emplace_back, then %s", variant.c_str(), n, on[op]);
+        if (!Copyable && op >= 11)
+            throw mc::Skip();
+        if ((op == 2 || op == 4) && n == 0)
+            throw mc::Skip();
+        if (op == 3 && !Tr::has_erase_range)
+            throw mc::Skip();
+        mc::nontrivial();
+        LargeCase<Tr, E> lc;
+        lc.variant = variant;
+        lc.reg.prop = "C02";
+        trk::Use u(lc.reg);
+        string o = "emplace_back";
+        lc.ctx(o);
+        Vec *v = new Vec(), *w = nullptr;
+        std::vector<int> m, mw;
+        for (int i = 0; i < n; i++)
+        {
+            v->emplace_back(i + 1);
+            m.push_back(i + 1);
+            if (!lc.check(o, *v, m))
+                return;
+        }
+        size_t mid = m.size() / 2;
+        lc.ctx(o = on[op]);
+        switch (op)
+        {
+        case 1:
+            v->emplace((CI)(v->data() + mid), 9);
+            m.insert(m.begin() + mid, 9);
+            break;
+        case 2:
+            v->erase(v->begin() + mid);
+            m.erase(m.begin() + mid);
+            break;
+        case 3:
+            if constexpr (Tr::has_erase_range)
+            {
+                v->erase(v->begin(), v->begin() + mid);
+                m.erase(m.begin(), m.begin() + mid);
+            }
+            break;
+        case 4:
+            v->pop_back();
+            m.pop_back();
+            break;
+        case 5:
+            v->resize(n + 2);
+            m.resize(n + 2);
+            break;
+        case 6:
+            v->resize(n / 2);
+            m.resize(n / 2);
+            break;
+        case 7:
+            v->reserve(n + 3);
+            break;
+        case 8:
+            v->clear();
+            m.clear();
+            break;
+        case 9:
+            w = new Vec(std::move(*v));
+            mw = m;
+            m.clear();
+            break;
+        case 10:
+            w = new Vec();
+            w->emplace_back(5);
+            *w = std::move(*v);
+            mw = m;
+            m.clear();
+            break;
+        case 11:
+            if constexpr (Copyable)
+            {
+                w = new Vec(*v);
+                mw = m;
+            }
+            break;
+        case 12:
+            if constexpr (Copyable)
+            {
+                w = new Vec();
+                w->emplace_back(5);
+                *w = *v;
+                mw = m;
+            }
+            break;
+        case 13:
+            if constexpr (Copyable)
+            {
+                E e(8);
+                v->push_back(e);
+                m.push_back(8);
+            }
+            break;
+        case 14:
+            if constexpr (Copyable)
+            {
+                E e(8);
+                v->insert((CI)(v->data() + mid), e);
+                m.insert(m.begin() + mid, 8);
+            }
+            break;
+        }
+        if (!lc.check(o, *v, m) || (w && !lc.check(o, *w, mw)))
+            return;
+        if (!lc.balance(o, (long)m.size() + (long)mw.size(), (v->data() ? 1 : 0) + (w && w->data() ? 1 : 0)))
+            return;
+        lc.ctx(o = "destructor");
+        delete v;
+        delete w;
+        lc.balance(o, 0, 0);
+        lc.reg.mute = true;
+        mc::outcome(mc::fmt("%d/%d", n, op));
+    }
+
     template <class Tr> void register_extra()
     {
         string n = Tr::name;
@@ -467,6 +598,8 @@ namespace c02
         mc::add_check("extra_" + n + "_selfref", [n] { selfref_body<typename Tr::template vec<SelfRef>, Tr::has_erase_range>(n + "_selfref"); });
         mc::add_check("extra_" + n + "_selfref_default_allocator", [n] { selfref_body<typename Tr::template vec_default<SelfRef>, Tr::has_erase_range>(n + "_selfref_default_allocator"); });
         mc::add_check("extra_" + n + "_emplace_multiarg", [n] { emplace_multiarg_body<typename Tr::template vec<ll::ListLike>, typename Tr::template vec<std::string>>(n); });
+        mc::add_check("extra_" + n + "_address_of_overloaded", [n] { unusual_element_body<Tr, trk::Amp, true>(n + "_address_of_overloaded"); });
+        mc::add_check("extra_" + n + "_move_only", [n] { unusual_element_body<Tr, trk::MoveOnly, false>(n + "_move_only"); });
         mc::add_check("extra_" + n + "_throwing_elements", [n] { throwing_body<Tr>(n + "_tracked"); });
     }
 }
